@@ -47,7 +47,7 @@ Next == \E op \in Menu : Step(op)
 
 FillCursor == fill.cur = cs.cur /\ fill.first = cs.start
 FillEdges == FillFinish(fill).edges = PEdges(pre)
-FillLoopsAgree == IsPolyline(pre) => SameNet(FillFinish(fill).edges, LoopEdges(FillLoops(pre)))
+FillLoopsAgree == IsPolyline(pre) => SameNet(FillFinish(fill).edges, LoopsAsEdges(FillLoops(pre)))
 FlatCursor == flat.cur = cs.cur /\ flat.start = cs.start
 RECURSIVE CurveStarts(_, _)
 CurveStarts(ops, c) == IF ops = <<>> THEN <<>>
